@@ -52,6 +52,9 @@ def gen_pair(rng, dom, n, style):
             return [rng.uniform(0.05, 1.0) * 10 ** rng.randint(-3, 3) for _ in range(n)]
         if style == "grid":
             return [float(rng.randint(1, 4)) for _ in range(n)]
+        if style == "huge":
+            # magnitudes whose squares and pairwise products are still finite in binary64 (1e80 ** 2 * n << 1.8e308)
+            return [rng.uniform(0.1, 10.0) * 1e80 for _ in range(n)]
         return [rng.uniform(0.1, 10.0) for _ in range(n)]
     x, y = base(), base()
     if style == "tiny":
@@ -85,7 +88,7 @@ def gen_pair(rng, dom, n, style):
     return x, y
 
 
-STYLES = ["plain", "unit", "wide", "grid", "near", "prob", "tiny"]
+STYLES = ["plain", "unit", "wide", "grid", "near", "prob", "tiny", "huge"]
 
 
 def cases_for(rng, dom, reps):
